@@ -54,3 +54,95 @@ Definition wf_entries (E : list AbsDest.entry) : Prop :=
   wf_listing (map fst E) /\ links_canon E.
 Definition wf_entries_b (E : list AbsDest.entry) : bool :=
   listing_ok_b (map fst E) && links_canon_b E.
+
+(* ------------------------------------------------------------------------------------------
+   Directory mtimes (own extension of the level-A model; AbsDest.v leaves them out).
+   On disk the mtime of a directory is not only what rewriteMetadata/chtimes wrote: every
+   create, rename-into-place and remove of an entry stamps the PARENT directory with the
+   current time.  The model keeps the destination map of AbsDest unchanged and records next to
+   it an overlay  [ov : path -> time]  = "the directory at this path currently shows this time
+   instead of the mtime of its stat", plus the list [dmt] of DiskWriter.dirModTimes (paths of the
+   directories created by Mkdir in this transfer).  DiskWriter.Wait re-applies the recorded
+   mtimes: the overlay of those paths is dropped.
+     add/modify at p : the entry at p is written with its stat's mtime (overlay at p dropped);
+                       unless it is a directory over a directory (metadata in place) the parent
+                       of p is stamped (temporary name created, renamed over p);
+     delete at p     : the parent is stamped if something was removed.
+   [now i] = the wall clock at the i-th change: arbitrary. *)
+Definition parent_of (p : bytes) : option bytes :=
+  match rev (sep_prefixes p) with q :: _ => Some q | [] => None end.
+
+Definition is_dir_at (D : dmap) (p : bytes) : bool :=
+  match alookup p D with Some o => st_is_dir (de_stat o) | None => false end.
+Definition exists_at (D : dmap) (p : bytes) : bool :=
+  match alookup p D with Some _ => true | None => false end.
+
+(* the Mkdir branch of HandleChange: dirModTimes[destPath] = stat.ModTime *)
+Definition mkdir_case (D : dmap) (c : change) : bool :=
+  match c with
+  | (KDelete, _, _) => false
+  | (_, p, Some st) => st_is_dir st && negb (is_dir_at D p)
+  | (_, _, None) => false
+  end.
+(* directory over directory: rewriteMetadata in place, nothing created, renamed or removed *)
+Definition in_place (D : dmap) (c : change) : bool :=
+  match c with
+  | (KDelete, _, _) => false
+  | (_, p, Some st) => st_is_dir st && is_dir_at D p
+  | (_, _, None) => false
+  end.
+
+Section DirTimes.
+Variable src : bytes -> bytes.
+Variable now : N -> N.
+
+Definition stamp_parent (p : bytes) (t : N) (ov : amap N) : amap N :=
+  match parent_of p with Some q => aset q t ov | None => ov end.
+
+Definition ov_step (D : dmap) (i : N) (c : change) (ov : amap N) : amap N :=
+  let p := ch_path c in
+  match c with
+  | (KDelete, _, _) => if exists_at D p then stamp_parent p (now i) ov else ov
+  | (_, _, Some _) =>
+      let ov1 := aremove_if (bytes_eqb p) ov in
+      if in_place D c then ov1 else stamp_parent p (now i) ov1
+  | (_, _, None) => ov
+  end.
+
+(* apply_all of AbsDest with the overlay and dirModTimes threaded along *)
+Fixpoint apply_all_t (cs : list change) (D : dmap) (next i : N) (ov : amap N) (dmt : list bytes)
+  : dmap * N * amap N * list bytes * bool :=
+  match cs with
+  | [] => (D, next, ov, dmt, false)
+  | c :: r =>
+    match apply_map src D next c with
+    | None => (D, next, ov, dmt, true)
+    | Some (D', n') =>
+      apply_all_t r D' n' (i + 1) (ov_step D i c ov) (if mkdir_case D c then ch_path c :: dmt else dmt)
+    end
+  end.
+
+(* DiskWriter.Wait: chtimes(path, dirModTimes[path]) for every recorded directory *)
+Definition wait_pass (dmt : list bytes) (ov : amap N) : amap N :=
+  aremove_if (fun q => existsb (bytes_eqb q) dmt) ov.
+End DirTimes.
+
+Record tstate := { ts_map : dmap; ts_ov : amap N; ts_err : bool }.
+
+Definition receive_t (now : N -> N) (m : rmode) (d : differ) (A B : list AbsDest.entry) : tstate :=
+  let LA := match m with Fresh => map fst A | Merge => [] end in
+  let cs := diff (fun s => s) d LA (map fst B) in
+  let '(D, _, ov, dmt, e) := apply_all_t (src_of B) now cs (dest_of A) (N.of_nat (length A)) 0 [] [] in
+  {| ts_map := D; ts_ov := wait_pass dmt ov; ts_err := e |}.
+
+(* the observation with the mtime a directory really shows *)
+Definition retime (ov : amap N) (d : obs) : obs :=
+  if N.eqb (o_type d) S_IFDIR then
+    match alookup (o_path d) ov with
+    | Some t => {| o_path := o_path d; o_type := o_type d; o_perm := o_perm d; o_uid := o_uid d; o_gid := o_gid d;
+                   o_mtime := t; o_content := o_content d; o_target := o_target d; o_major := o_major d;
+                   o_minor := o_minor d; o_ino := o_ino d; o_xattrs := o_xattrs d |}
+    | None => d
+    end
+  else d.
+Definition view_t (s : tstate) : list obs := map (retime (ts_ov s)) (view_of (ts_map s)).
